@@ -410,6 +410,18 @@ class KeyedSet(Generic[ItemType, KeyType], MutableSet, KeyedBase):  # pylint: di
         except TypeError:
             return False
 
+    def __and__(self, other):
+        # As `&=`: what is kept are items of *this* set, identified by key
+        # whatever kind of set the other operand is. (The `Set` mixin takes the
+        # elements of the other operand, e.g. the bare keys of a builtin set.)
+        if not isinstance(other, IterableABC):
+            return NotImplemented
+        result = self._from_iterable(self)
+        result &= other
+        return result
+
+    __rand__ = __and__
+
     def __sub__(self, other):
         # As `-=` (and `&`): items are identified by key, whatever kind of set
         # the other operand is.
@@ -444,7 +456,7 @@ class KeyedSet(Generic[ItemType, KeyType], MutableSet, KeyedBase):  # pylint: di
         # non-hashable (only their keys need to be hashable).
         if isinstance(other, KeyedSet):
             return self._dict == other._dict
-        if isinstance(other, set):
+        if isinstance(other, (set, frozenset)):
             try:
                 return set(self._dict.values()) == other
             except TypeError:
@@ -472,7 +484,11 @@ class KeyedSet(Generic[ItemType, KeyType], MutableSet, KeyedBase):  # pylint: di
                 return self._dict[key]
         except TypeError:  # unhashable items cannot be keys; look up by item
             pass
-        item_key = self.key(key)
+        try:
+            item_key = self.key(key)
+        except (TypeError, AttributeError):
+            # (as for `in`: what cannot be keyed is not an item of this set)
+            raise KeyError(key) from None
         if item_key in self._dict:
             return self._dict[item_key]
         raise KeyError(key)
